@@ -15,7 +15,7 @@ def custom_native(ip, runner):
 def build(chk, ip, runner):
     chk.design_ref = 'DESIGN.md section 5 C09'
     # the length-prefixed field reader all blob parsers are built on: the only exception is struct.error, exactly when 4 length bytes are missing
-    chk.units = [u for u in c11_hostkey.small_units() if u.contract.qual == 'KexDH.__get_bytes'] + c09_parsers.units() + c09_parsers.send_init_units() + c12_gex.reconnect_units() + c12_gex.send_init_units()
+    chk.units = [u for u in c11_hostkey.small_units() if u.contract.qual == 'KexDH.__get_bytes'] + c09_parsers.units() + c09_parsers.send_init_units() + c09_parsers.send_init_fixed_units() + c12_gex.reconnect_units() + c12_gex.send_init_units()
     chk.stubs = c09_parsers.stubs() + c09_parsers.callee_contracts() + [c for c in c12_gex.reconnect_stubs() if c.qual != 'traceback:format_exc'] + c12_gex.send_init_stubs()
     chk.lemmas = ['val_be_word']
     chk.customs = [custom_native]
